@@ -537,15 +537,13 @@ fn run_ctx_seq(line: &str) -> Option<String> {
                 ),
             }
         };
-        let r = hcommon::catch(|| match ctx {
+        // a panic is not caught here: the whole case then reads `panic` (what the C08 projection looks for)
+        let (s, f) = match ctx {
             Ctx::Plain => call(),
             Ctx::MtNoDriversBlockOn => rt_mt.block_on(async { call() }),
             _ => rt_ct.block_on(async { call() }),
-        });
-        toks.push(match r {
-            Some((s, f)) => format!("send={},flush={}", if s { "ok" } else { "err" }, f),
-            None => "panic".to_string(),
-        });
+        };
+        toks.push(format!("send={},flush={}", if s { "ok" } else { "err" }, f));
     }
     drop(sender);
     let _ = handle.join();
